@@ -12,6 +12,8 @@ import (
 	"io/ioutil"
 	"math/big"
 	"os"
+	"runtime"
+	"strings"
 	"time"
 
 	"github.com/spf13/viper"
@@ -25,6 +27,7 @@ import (
 	ecrypto "github.com/dappledger/AnnChain/eth/crypto"
 	"github.com/dappledger/AnnChain/eth/rlp"
 	glog "github.com/dappledger/AnnChain/gemmill/modules/go-log"
+	sm "github.com/dappledger/AnnChain/gemmill/state"
 	gtypes "github.com/dappledger/AnnChain/gemmill/types"
 
 	"verifharness/mbt"
@@ -144,11 +147,19 @@ func init() {
 
 // Node is one replica: the real EVMApp over a directory.
 type Node struct {
-	Dir       string
-	BlockSize int
-	App       *evm.EVMApp
-	Starts    int
-	Started   time.Time // when the application (and its pool's eviction ticker) was last started
+	Dir         string
+	BlockSize   int
+	App         *evm.EVMApp
+	Starts      int
+	History     []*gtypes.Block // committed blocks (a stuck call is retried on a fresh replica with the same chain)
+	Abandoned   []string        // directories of abandoned (stuck) application objects
+	evsw        gtypes.EventSwitch
+	commitRes   *gtypes.CommitResult
+	commitErr   error
+	commitPanic interface{}
+	commitStack string
+	owner       *Node
+	Started     time.Time // when the application (and its pool's eviction ticker) was last started
 	// headers of the committed blocks: the Node is the application's gtypes.Core (block store) like Angine is
 	Metas map[int64]*gtypes.BlockMeta
 }
@@ -198,6 +209,32 @@ func (n *Node) open() error {
 		return err
 	}
 	app.SetCore(coreStub{n})
+	if n.evsw == nil {
+		// the commit-hook listener Angine installs: run the application's OnCommit and hand back its result
+		n.evsw = gtypes.NewEventSwitch()
+		if _, err := n.evsw.Start(); err != nil {
+			return err
+		}
+		self := n
+		gtypes.AddListenerForEvent(n.evsw, "verif", gtypes.EventStringHookCommit(), func(ed gtypes.TMEventData) {
+			data := ed.(gtypes.EventDataHookCommit)
+			t := self
+			if t.owner != nil {
+				t = t.owner
+			}
+			var r interface{}
+			var err error
+			// (a panic must not unwind through the event switch, which holds its read lock around the listeners)
+			t.commitPanic, t.commitStack = mbt.Catch(func() { r, err = t.App.OnCommit(data.Height, data.Round, data.Block) })
+			t.commitErr = err
+			if cs, ok := r.(gtypes.CommitResult); ok {
+				t.commitRes = &cs
+				data.ResCh <- cs
+			} else {
+				data.ResCh <- gtypes.CommitResult{}
+			}
+		})
+	}
 	n.App = app
 	n.Started = time.Now()
 	n.Starts++
@@ -218,6 +255,9 @@ func (n *Node) Close() {
 		n.App = nil
 	}
 	os.RemoveAll(n.Dir)
+	for _, d := range n.Abandoned {
+		os.RemoveAll(d)
+	}
 }
 
 // MakeBlock builds block `height` deterministically (same bytes on every replica).
@@ -241,31 +281,168 @@ func MakeBlock(height int64, txs [][]byte) *gtypes.Block {
 	return b
 }
 
-// Execute calls the application's execute hook callback the way angine does (Hooks.OnExecute wraps
-// app.OnExecute); a panic is returned, not propagated.
-func (n *Node) Execute(b *gtypes.Block) (res gtypes.ExecuteResult, err error, pnc interface{}, stack string) {
-	pnc, stack = mbt.Catch(func() {
-		var r interface{}
-		r, err = n.App.OnExecute(b.Height, 0, b)
-		if rr, ok := r.(gtypes.ExecuteResult); ok {
-			res = rr
-		}
-	})
-	return
+// Hang is returned (in place of a panic value) when OnExecute / OnCommit did not return within the deadline on this
+// replica AND, retried with twice the deadline, on a fresh replica that had committed the same chain.
+type Hang struct {
+	Call     string
+	Deadline time.Duration
+	Dump     string
 }
 
-// Commit is state.CommitStateUpdateMempool: TxPool.Update(height, txs) then the commit hook.
-func (n *Node) Commit(b *gtypes.Block) (res gtypes.CommitResult, err error, pnc interface{}, stack string) {
-	pnc, stack = mbt.Catch(func() {
-		n.App.GetTxPool().Update(b.Height, b.Data.Txs)
-		var r interface{}
-		r, err = n.App.OnCommit(b.Height, 0, b)
-		if rr, ok := r.(gtypes.CommitResult); ok {
-			res = rr
-			n.Metas[b.Height] = &gtypes.BlockMeta{Hash: b.Hash(), Header: b.Header}
+func (h Hang) String() string {
+	return fmt.Sprintf("%s did not return within %v, nor within %v on a fresh application with the same chain", h.Call, h.Deadline, 2*h.Deadline)
+}
+
+// Deadline is the watchdog for one OnExecute / OnCommit call (blocks of the checks hold a handful of transactions).
+var Deadline = 60 * time.Second
+
+func goroutineDump() string {
+	buf := make([]byte, 1<<20)
+	buf = buf[:runtime.Stack(buf, true)]
+	var keep []string
+	for _, g := range strings.Split(string(buf), "\n\n") {
+		if strings.Contains(g, "chain/app/evm") {
+			if len(g) > 1500 {
+				g = g[:1500]
+			}
+			keep = append(keep, g)
 		}
-	})
-	return
+		if len(keep) >= 8 {
+			break
+		}
+	}
+	return strings.Join(keep, "\n\n")
+}
+
+type execOut struct {
+	res   gtypes.ExecuteResult
+	err   error
+	pnc   interface{}
+	stack string
+}
+
+func (n *Node) rawExecute(b *gtypes.Block, d time.Duration) (execOut, bool) {
+	ch := make(chan execOut, 1)
+	app := n.App
+	go func() {
+		var o execOut
+		o.pnc, o.stack = mbt.Catch(func() {
+			var r interface{}
+			r, o.err = app.OnExecute(b.Height, 0, b)
+			if rr, ok := r.(gtypes.ExecuteResult); ok {
+				o.res = rr
+			}
+		})
+		ch <- o
+	}()
+	select {
+	case o := <-ch:
+		return o, true
+	case <-time.After(d):
+		return execOut{}, false
+	}
+}
+
+type commitOut struct {
+	res   gtypes.CommitResult
+	err   error
+	pnc   interface{}
+	stack string
+}
+
+func (n *Node) rawCommit(b *gtypes.Block, d time.Duration) (commitOut, bool) {
+	ch := make(chan commitOut, 1)
+	go func() {
+		var o commitOut
+		o.pnc, o.stack = mbt.Catch(func() {
+			// the real caller: state.CommitStateUpdateMempool(evsw, block, pool, round) tells the pool the block's Txs and
+			// ExTxs and fires the commit hook, which the listener installed by open() answers with the application's OnCommit
+			n.commitErr, n.commitRes, n.commitPanic = nil, nil, nil
+			if e := (&sm.State{}).CommitStateUpdateMempool(n.evsw, b, n.App.GetTxPool(), 0); e != nil {
+				o.err = e
+			}
+			if n.commitErr != nil {
+				o.err = n.commitErr
+			}
+			if n.commitPanic != nil {
+				p, st := n.commitPanic, n.commitStack
+				n.commitPanic = nil
+				o.stack = st
+				panic(p)
+			}
+			if n.commitRes != nil {
+				o.res = *n.commitRes
+			}
+		})
+		ch <- o
+	}()
+	select {
+	case o := <-ch:
+		return o, true
+	case <-time.After(d):
+		return commitOut{}, false
+	}
+}
+
+// fresh builds a new replica that has committed the same blocks (no watchdog retry inside).
+func (n *Node) fresh(d time.Duration) (*Node, bool) {
+	f, err := NewNode(n.BlockSize)
+	if err != nil {
+		return nil, false
+	}
+	for _, b := range n.History {
+		if o, ok := f.rawExecute(b, d); !ok || o.err != nil || o.pnc != nil {
+			return nil, false
+		}
+		if o, ok := f.rawCommit(b, d); !ok || o.err != nil || o.pnc != nil {
+			return nil, false
+		}
+		f.History = append(f.History, b)
+		f.Metas[b.Height] = &gtypes.BlockMeta{Hash: b.Hash(), Header: b.Header}
+	}
+	return f, true
+}
+
+// adopt makes n continue on the replica f (the stuck application object is abandoned; it cannot be reclaimed).
+func (n *Node) adopt(f *Node) {
+	n.Abandoned = append(n.Abandoned, n.Dir)
+	n.Dir, n.App, n.evsw, n.Started = f.Dir, f.App, f.evsw, f.Started
+	f.owner = n
+}
+
+// Execute calls the application's execute hook callback the way angine does (Hooks.OnExecute wraps
+// app.OnExecute); a panic is returned, not propagated.  A call that does not return within Deadline is retried once
+// on a fresh replica with the same chain and twice the deadline (machine load); two expiries are reported as Hang.
+func (n *Node) Execute(b *gtypes.Block) (res gtypes.ExecuteResult, err error, pnc interface{}, stack string) {
+	o, ok := n.rawExecute(b, Deadline)
+	if !ok {
+		dump := goroutineDump()
+		f, fok := n.fresh(2 * Deadline)
+		if fok {
+			o, ok = f.rawExecute(b, 2*Deadline)
+			if ok {
+				n.adopt(f)
+			}
+		}
+		if !ok {
+			return res, nil, Hang{Call: "OnExecute", Deadline: Deadline, Dump: dump}, dump
+		}
+	}
+	return o.res, o.err, o.pnc, o.stack
+}
+
+// Commit is state.CommitStateUpdateMempool: TxPool.Update(height, txs + extxs) then the commit hook.
+func (n *Node) Commit(b *gtypes.Block) (res gtypes.CommitResult, err error, pnc interface{}, stack string) {
+	o, ok := n.rawCommit(b, Deadline)
+	if !ok {
+		dump := goroutineDump()
+		return res, nil, Hang{Call: "OnCommit", Deadline: Deadline, Dump: dump}, dump
+	}
+	if o.pnc == nil && o.err == nil {
+		n.Metas[b.Height] = &gtypes.BlockMeta{Hash: b.Hash(), Header: b.Header}
+		n.History = append(n.History, b)
+	}
+	return o.res, o.err, o.pnc, o.stack
 }
 
 // Query helpers -----------------------------------------------------------------------------------
